@@ -5,7 +5,7 @@ set -u
 export GOFLAGS=-mod=mod GOPROXY=off GOSUMDB=off GOTOOLCHAIN=local
 D=$(readlink -f "$1")
 CMD=$(grep -h "go test" "$D"/README.txt | grep -- "-run" | head -1 | sed 's/^[^g]*go test/go test/; s/[`]*$//')
-PKG=$(echo "$CMD" | grep -o '\./[a-z_/]*/' | head -1)
+PKG=$(echo "$CMD" | grep -o '\./[a-z_/]*[a-z_]' | head -1)/
 [ -n "$CMD" ] && [ -n "$PKG" ] || { echo "NOT-CONFIRMED $D (no command found)"; exit 0; }
 WT=$(mktemp -d /tmp/pdconf-XXXXXX)
 git -C /repo worktree add -q --detach "$WT" HEAD || exit 2
